@@ -48,6 +48,10 @@ CHECKS = {
    technique="property-based differential testing of generated programs around a #[ds(trrel_uf)] relation against the reference evaluator with an explicit reflexive transitive closure",
    text="As C10 for the trrel_uf provider, restricted by three open findings (KF-13, KF-14a, KF-14b, each with a committed failing replay): the tagged relation is filled from inputs only and, in the ternary form, read with the key bound; within that fragment every reader must see exactly the reflexive transitive closure, without panics.",
    note="Trusted base as for C01 plus the reference closure. The excluded shapes (recursive feeding; key-free reads of the ternary form) are counted in the evidence and are exercised by the committed replays of the open findings."),
+ "C15": dict(engine="frontend", level="exploration", design="4/C15",
+   technique="mutation-based property testing: one violation operator applied at a random site of generated well-formed programs, checked on the repository's macro pipeline compiled in-process and through real rustc diagnostics",
+   text="Thousands of ill-formed variants (16 violation operators x random site x four macros) of generated well-formed programs are fed to the repository's own parse/desugar/HIR/MIR/codegen pipeline compiled as a library: it must return an error, never Ok, never panic, never loop; a seeded sample and every case the front end accepts go through real rustc, where each program must get an error diagnostic of its own and no 'proc macro panicked'. Conversely every well-formed base must be accepted.",
+   note="Trusted base: the glue around the pipeline (a copy of ascent_impl), attribution of rustc diagnostics by line range. Compile-time rejections of well-formed programs that are already known (KF-2, KF-4, KF-9, KF-20) are re-checked on every run and reported as KNOWN-FINDING while they persist."),
  "C16": dict(engine="libprops", level="exploration", design="4/C16",
    technique="property-based testing of algebraic laws: exhaustive enumeration of all triples over small carriers of every shipped lattice type, random generation beyond",
    text="The lattice laws, their agreement with PartialOrd and the truthfulness of the 'changed' result of join_mut / meet_mut are checked on all triples of about 40 small carrier instantiations (every shipped Lattice implementation and nested compositions) and on randomly generated values of wider types.",
@@ -111,6 +115,8 @@ def main():
                    baseline_off_cmd="cd /repo && cargo test --workspace --no-fail-fast --offline",
                    source_commits=hook_ids, add_only=True),
         engines=[
+            dict(name="frontend", path="engine/frontend + engine/gen/src/illformed.rs", serves_properties=["C15"],
+                 kind_free_text="ascent_macro's pipeline compiled in-process via #[path] includes (always the current working tree), plus a cargo check tier with JSON diagnostics"),
             dict(name="libprops", path="engine/libprops", serves_properties=[p for p in ids if CHECKS.get(p, {}).get("engine") == "libprops"],
                  kind_free_text="in-process proptest (fixed seed) and exhaustive enumeration on the library types of ascent_base, ascent::aggregators, ascent::internal and ascent-byods-rels"),
             dict(name="progfuzz", path="engine/{core,gen,glue,runner}", serves_properties=[p for p in ids if CHECKS.get(p, {}).get("engine") == "progfuzz"],
